@@ -4,9 +4,11 @@ package main
 
 import (
 	"fmt"
+	"go/ast"
 	"go/token"
 	"go/types"
 	"os"
+	"regexp"
 	"runtime"
 	"runtime/debug"
 	"sort"
@@ -25,6 +27,8 @@ const tokenLSS = token.LSS
 
 type funcResult struct {
 	Func    string
+	Shape   string // hash of the function's source modulo local names (shape.go)
+	Locals  []string
 	Reach   string
 	Paths   int
 	Returns int
@@ -83,6 +87,28 @@ func (e *Engine) newTopFrame(fn *ssa.Function) *Frame {
 	return &Frame{fn: fn, regs: map[ssa.Value]Val{}, blk: fn.Blocks[0], visits: map[int]int{}, isTop: true}
 }
 
+var unknownIdentRe = regexp.MustCompile(`unknown identifier "([^"]+)" in contract`)
+
+// identInSource: does the identifier occur anywhere in the source of fn's outermost enclosing function?
+func identInSource(fn *ssa.Function, name string) bool {
+	top := fn
+	for top.Parent() != nil {
+		top = top.Parent()
+	}
+	node := top.Syntax()
+	if node == nil {
+		return false
+	}
+	found := false
+	ast.Inspect(node, func(n ast.Node) bool {
+		if id, ok := n.(*ast.Ident); ok && id.Name == name {
+			found = true
+		}
+		return !found
+	})
+	return found
+}
+
 func (e *Engine) verifyCase(fn *ssa.Function, c *Contract, caseName string, res *funcResult) {
 	vc := &verifCtx{fn: fn, c: c, caseName: caseName, inputs: map[string]Val{}}
 	e.cur = vc
@@ -90,6 +116,11 @@ func (e *Engine) verifyCase(fn *ssa.Function, c *Contract, caseName string, res 
 		if r := recover(); r != nil {
 			if er, ok := r.(error); ok {
 				vc.reach = "contract error: " + er.Error()
+				// a missing name that still occurs in the (enclosing) function's source was not renamed away: the
+				// code changed in a way that takes the variable out of this function's scope or capture set
+				if m := unknownIdentRe.FindStringSubmatch(er.Error()); m != nil && identInSource(fn, m[1]) {
+					vc.reach = "contract error (name still used by the enclosing function): " + er.Error()
+				}
 				if _, isRT := r.(runtime.Error); isRT && os.Getenv("GOVC_DEBUG") != "" {
 					debug.PrintStack()
 				}
